@@ -433,14 +433,14 @@ QUICK = {
     'C09': ['c09_f1_header_value', 'c09_f3_overlong_rl', 'c09_f2_s1_three_frames', 'c09_f2_s3_four_byte_len', 'c09_f2_s4_error_then_frame', 'st_recv_two_packets_one_buffer'],
     'C10': ['st_notify_closed_any', 'st_reuse_client_v311_clean_connect', 'st_recv_connect_v311_server'],
     'C11': ['c11_const_table', 'c11_cell_client_v311_subscribe', 'c11_cell_server_v5_connack', 'c11_cell_any_v5_publish_q1', 'c11_cell_client_v311_pubrel', 'c11_cell_server_v5_pubrec'],
-    'C12': ['st_recv_puback_v5_flow', 'st_send_publish_v5_flow', 'st_erase_stored_publish_v5', 'st_send_connack_v5_resume_count', 'st_recv_publish_v5_recv_max'],
+    'C12': ['st_recv_puback_v5_flow', 'st_send_publish_v5_flow', 'st_erase_stored_publish_v5', 'st_send_pubrec_v5_handled', 'st_send_connack_v5_resume_count', 'st_recv_publish_v5_recv_max'],
     'C13': ['c13_alias_send_hist3', 'c13_alias_send_clear', 'c13_alias_recv_hist2', 'st_send_publish_v5_manual_alias_bind', 'st_send_publish_v5_alias_resolve', 'st_recv_publish_v5_alias'],
     'C14': ['c14_total_size_kernel', 'c09_f1_header_value', 'st_send_puback_v5_limit', 'st_send_publish_v5_limit', 'st_send_publish_v5_automap_limit', 'st_send_stored_limit_v5', 'st_recv_packet_too_large'],
-    'C15': ['st_send_pingreq_v5_client', 'st_send_disconnect_v311_client', 'st_timer_fired_server_pingreq_recv', 'st_notify_closed_any', 'st_recv_connect_v311_server', 'st_send_pubrel_states_v311'],
+    'C15': ['st_send_pingreq_v5_client', 'st_send_disconnect_v311_client', 'st_timer_fired_server_pingreq_recv', 'st_notify_closed_any', 'st_recv_connect_v311_server', 'st_send_pubrel_states_v311', 'st_recv_pingresp_client'],
     'C16': ['st_restore_packets_v311', 'st_restore_packets_v5', 'st_restore_packets_duplicate_id', 'st_handled_export_restore', 'st_recv_connack_v311_resume'],
     'C17': ['c17_can_receive_table', 'st_dispatch_client_v311', 'st_dispatch_server_v311', 'st_undetermined_first_packet', 'st_recv_connack_while_connected_v311'],
     'C18': [h['name'] for h in HARNESSES if h['name'].startswith('c18_')],
-    'C19': ['st_send_disconnect_v311_client', 'st_timer_fired_v311_client', 'st_recv_puback_v5_flow', 'st_recv_framing_error_v5', 'st_recv_packet_too_large'],
+    'C19': ['st_send_disconnect_v311_client', 'st_send_disconnect_v5_server', 'st_timer_fired_v311_client', 'st_recv_puback_v5_flow', 'st_recv_framing_error_v5', 'st_recv_packet_too_large'],
     'C20': ['c20_step_u16_n3', 'c20_base_new_u16', 'c20_base_new_u32'],
 }
 THOROUGH_EXTRA = {
